@@ -10,6 +10,7 @@ from .. import dump as D
 from .. import gen_values as G
 from .. import valmodel as VM
 from .. import walker
+from .. import parsing
 from ..lib import *      # noqa: F401,F403
 from ..monitors import LedgerScope
 
@@ -220,15 +221,30 @@ def run_case(ctx, i):
         want = model_numbers(L, pv)
         if path == 'parse':
             from .. import gen_cif
-            text = gen_cif.single_item_document(rng, '_it.parse', pv)
+            w = gen_cif.Writer(rng, 2)
+            text = w.document([{'code': 'v', 'entries': [('item', '_it.parse', pv)]}])
             errs = []
             data = text.encode('utf-8')
+            # the two text-field protocols are switched independently: turning one off leaves fields that use only the
+            # other one to be decoded as before (CIF 2.0: both are on by default)
+            folded = any('+fold' in k for k in w.presentations)
+            prefixed = any('+prefix' in k for k in w.presentations)
+            popts = None
+            r = (i // 60) % 4
+            if r == 1 and not folded:
+                popts = parsing.make_opts(fold=-1)
+            elif r == 2 and not prefixed:
+                popts = parsing.make_opts(prefix=-1)
+            elif r == 3:
+                popts = parsing.make_opts(fold=1, prefix=1)
+            if popts is not None:
+                ctx.count('parses_with_one_text_protocol_switched')
             if i % 2:
                 # the same document with CR LF terminators, moved by a comment so that one of its terminators - inside
                 # the value if it has any - lies across the first 4096-byte read boundary
                 data = straddle(rng, text)
                 ctx.count('parsed_documents_with_a_terminator_across_a_read_boundary')
-            rc, cif = L.parse_bytes(data, None, 'new')
+            rc, cif = L.parse_bytes(data, popts, 'new')
             if rc != CIF_OK:
                 raise Mismatch('model:cif_parse:0:%d:c07' % rc, 'parsing the document written for the value -> %d\n%s' % (rc, text[:400]))
             rc, b = L.get_block(cif, 'v')
